@@ -137,10 +137,13 @@ func runOne(seed uint64, n int, c cfg) ([]byte, error) {
 	if r.Chance(25) {
 		todo["mined"] = true
 	}
+	if r.Chance(25) {
+		todo["forkrecv"] = true
+	}
 	steps := 10 + r.Intn(30)
 	for s := 0; s < steps || ((c.probes["foreign"] || c.probes["unseen"]) && len(todo) > 0 && s < 80); s++ {
 		if len(todo) > 0 && len(queue) == 0 && h.N.Height() >= 6 {
-			for _, p := range []string{"simul", "mined", "foreign", "unseen"} {
+			for _, p := range []string{"simul", "mined", "forkrecv", "foreign", "unseen"} {
 				if todo[p] {
 					done, err := h.Scenario(p)
 					if err != nil {
